@@ -121,7 +121,7 @@ def oracles(req, ev, access, prims):
 
         for (li, t) in m["ops"]:
             if xi >= len(ev):
-                hits.append(("C04", "the compiled program stopped (crash) before this operation", li))
+                hits.append((prop_of_op("x " + " ".join(str(z) for z in t)), "the compiled program stopped (crash / panic on valid input) at this operation: " + " ".join(str(z) for z in t), li))
                 return hits
             e = ev[xi]; opi = xi; xi += 1
             parts = e.split(" | ")
@@ -294,6 +294,9 @@ def run(seed, tier, prims):
         json.dump(info, open(marker, "w")); return info
     req = open(os.path.join(lab, "req.txt")).read().splitlines()
     shutil.copy(os.path.join(lab, "req.txt"), os.path.join(base, "req.txt"))
+    for extra in ("panics.txt", "layouts.txt"):
+        if os.path.exists(os.path.join(lab, extra)):
+            shutil.copy(os.path.join(lab, extra), os.path.join(base, extra))
     with open(os.path.join(base, "req.txt")) as fin, open(os.path.join(base, "model.txt"), "w") as fout:
         subprocess.run([DRV], stdin=fin, stdout=fout)
     for name, rel, hooks in [("dbg-hook", False, True), ("rel-hook", True, True), ("rel-plain", True, False)]:
@@ -331,6 +334,37 @@ def analyse(info, prims):
     res["distinct"] = len(seen)
     res["nontrivial"] = len([r for r in seen if r.split(" ")[1] in ("conv", "set", "clone", "clonefrom", "unpack", "drop", "serde", "newu")])
     mods_idx = [i for i, r in enumerate(req) if r.startswith("xmod")]
+    # definitions the real builder / generator panicked on (skipped by the lab generator): C13, with their requests
+    res["builder_panics"] = []
+    pf = os.path.join(base, "panics.txt")
+    if os.path.exists(pf):
+        for blk in open(pf).read().split("--\n"):
+            ls = [l for l in blk.splitlines() if l and not l.startswith("PANIC")]
+            if ls:
+                res["builder_panics"].append(ls)
+                if len(res["oracle"]) < 300:
+                    res["oracle"].append({"property": "C13", "message": "the real builder / generator panicked on this accepted definition", "line": -1, "build": "generator", "requests": ls})
+    # the real builder's layout of every module: two fields of one variant must not share a byte (a store to one would land on
+    # storage the record owns for the other), every offset must be a multiple of the field's alignment
+    lf = os.path.join(base, "layouts.txt")
+    res["layouts_checked"] = 0
+    if os.path.exists(lf):
+        for l in open(lf).read().splitlines():
+            mname, vname, items = (l.split(" ") + [""])[:3]
+            k = int(mname[1:])
+            line = mods_idx[k] if k < len(mods_idx) else 0
+            fs = [it.split(":") for it in items.split(",") if it]
+            res["layouts_checked"] += 1
+            for a in range(len(fs)):
+                na, oa, sa, aa = fs[a][0], int(fs[a][1]), int(fs[a][2]), int(fs[a][3])
+                if aa and oa % aa != 0:
+                    for p in ("C07", "C02"):
+                        res["oracle"].append({"property": p, "message": f"variant {vname[1:]}: field {na} at offset {oa} is not aligned to {aa}", "line": line, "build": "layout"})
+                for b2 in range(a + 1, len(fs)):
+                    nb, ob, sb = fs[b2][0], int(fs[b2][1]), int(fs[b2][2])
+                    if sa and sb and oa < ob + sb and ob < oa + sa:
+                        for p in ("C07", "C01"):
+                            res["oracle"].append({"property": p, "message": f"variant {vname[1:]}: fields {na} [{oa},{oa + sa}) and {nb} [{ob},{ob + sb}) share bytes: the store of one lands on storage the record owns for the other", "line": line, "build": "layout"})
     for name, b in info["builds"].items():
         if not b.get("compiled"):
             for ce in b.get("compile_errors", []):
@@ -369,10 +403,26 @@ def analyse(info, prims):
             if len(res["oracle"]) < 300:
                 res["oracle"].append({"property": p, "message": msg, "line": li, "build": name})
         if b.get("rc") not in (0, None):
-            res["oracle"].append({"property": "C04", "message": f"compiled program ({name}) terminated abnormally, rc={b.get('rc')}", "line": xs[min(len(ev), len(xs) - 1)][0] if xs else 0, "build": name})
+            at = xs[min(len(ev), len(xs) - 1)] if xs else (0, "", "")
+            res["oracle"].append({"property": prop_of_op(at[1]), "message": f"compiled program ({name}) terminated abnormally (rc={b.get('rc')}) at operation `{at[1]}`", "line": at[0], "build": name})
     for (i, r, m) in xs[5:8]:
         res["samples"].append({"request": r, "model": m})
     return res, req
+
+
+def prop_of_op(request):
+    """the property whose behaviour the operation exercises (used to attribute a crash of the compiled program)"""
+    t = request.split(" ")
+    k = t[1] if len(t) > 1 and t[0] == "x" else (t[0] if t else "")
+    if k in ("serde", "debad"):
+        return "C15"
+    if k in ("clone", "clonefrom", "clonebomb"):
+        return "C16"
+    if k == "conv":
+        return "C05"
+    if k == "drop":
+        return "C06"
+    return "C04"
 
 
 def wildcard_eq(lab, model):
